@@ -304,6 +304,21 @@ def check_case(case):
         ok, r = call('project_chain_to_samples', cs.project_chain_to_samples, chvals, chv, sv, cv)
         if ok:
             expect('project_chain_to_samples', nanlist(r), per_sample(lambda c: float(chvals[rchain[rsub[c]]]) if rsub[c] >= 0 else 'nan'))
+        # the cycle vector as the [n x 1] column that get_cycle_vector returns and the container holds: same answers
+        cvc = cv[:, None].copy()
+        ok, r = call('project_cycles_to_samples:column', cs.project_cycles_to_samples, cycvals, cvc)
+        if ok:
+            expect('project_cycles_to_samples:column', nanlist(r), per_sample(lambda c: float(cycvals[c])))
+        ok, r = call('project_subset_to_samples:column', cs.project_subset_to_samples, subvals, sv, cvc)
+        if ok:
+            expect('project_subset_to_samples:column', nanlist(r), per_sample(lambda c: float(subvals[rsub[c]]) if rsub[c] >= 0 else 'nan'))
+        ok, r = call('project_chain_to_samples:column', cs.project_chain_to_samples, chvals, chv, sv, cvc)
+        if ok:
+            expect('project_chain_to_samples:column', nanlist(r), per_sample(lambda c: float(chvals[rchain[rsub[c]]]) if rsub[c] >= 0 else 'nan'))
+        for c in range(K):
+            ok, r = call('map_cycle_to_samples:column', cs.map_cycle_to_samples, cvc, c)
+            if ok:
+                expect('map_cycle_to_samples:column', arr(r), samples_of_cycle[c])
     if cv is not None and not np.array_equal(cv, cv0):
         viols.append(('input-modified', '%s: the cycle vector was changed by the maps' % d))
     nontriv = any(sel) and not all(sel) and (cv is None or (cv < 0).any())
